@@ -140,6 +140,9 @@ type workerArgs struct {
 	RunWallS int    `json:"runwall_s"` // per-run wall watchdog
 	RaceLog  string `json:"racelog"`   // GORACE log_path prefix
 	Samples  int    `json:"samples"`
+	// KnownSigs: signatures listed as known findings; they are recorded once and do not make
+	// the worker stop early
+	KnownSigs []string `json:"known_sigs"`
 }
 
 type workerStats struct {
@@ -270,6 +273,15 @@ func Execute(t *testing.T, c *Case, dir string, rr *raceReader, runWall time.Dur
 	return v
 }
 
+func contains(xs []string, x string) bool {
+	for _, y := range xs {
+		if y == x {
+			return true
+		}
+	}
+	return false
+}
+
 func writeJSON(path string, v any) {
 	b, _ := json.MarshalIndent(v, "", " ")
 	tmp := path + ".tmp"
@@ -377,6 +389,14 @@ func WorkerMain(t *testing.T) {
 		}
 		switch v.Class {
 		case "violation":
+			if contains(a.KnownSigs, v.Sig) {
+				st.Counters["known_finding_"+v.Sig]++
+				if st.Counters["known_finding_"+v.Sig] > 1 {
+					break
+				}
+				writeJSON(filepath.Join(a.OutDir, fmt.Sprintf("viol-%d.json", i)), map[string]any{"case": c, "verdict": v})
+				break
+			}
 			st.Violations++
 			if v.Trace != nil {
 				c.Sched = v.Trace
